@@ -471,7 +471,14 @@ theorem hotspotCore_eq [Mul α] (n : Nat) (adj : Nat → Nat → Bool) (val : Na
       match maxOf ((candidates n val cap).map val) with
       | none => (List.range n).map (fun _ => 0)
       | some m => (List.range n).map (labelOf (components adj val n (above n val (frac * m)))) := by
-  cases cap <;> rfl
+  cases cap with
+  | none =>
+    -- over a linear order no value is skipped (the model's NaN filter `val i ≤ val i` is the identity)
+    have hf : (List.range n).filter (fun i => decide (val i ≤ val i)) = List.range n :=
+      List.filter_eq_self.2 (fun a _ => by simp)
+    simp only [hotspotCore, candidates, hf]
+    rfl
+  | some t => rfl
 
 theorem labelAt_none [Mul α] (n : Nat) (adj : Nat → Nat → Bool) (val : Nat → α) (frac : α) (cap : Option α)
     (h : maxOf ((candidates n val cap).map val) = none) (i : Nat) : labelAt n adj val frac cap i = 0 := by
